@@ -87,9 +87,26 @@ def policy_consistency(total: int, succ: int, fail: int, has_min: bool, min_succ
 
 
 def _pct_sites():
-    """(function, description) of every percentage test in models.py"""
-    return [(ExecutionCounters.should_continue, "should_continue"), (ExecutionCounters._is_failure_condition_reached, "_is_failure_condition_reached"),
-            (BatchResult._get_completion_reason, "_get_completion_reason")]
+    """(function, description) of every function in models.py that mentions the tolerated failure percentage (where the test sits is the implementation's
+    business: helpers included)"""
+    import inspect
+    import aws_durable_execution_sdk_python.concurrency.models as MM
+    out = []
+
+    def src(fn):
+        try:
+            return inspect.getsource(fn)
+        except (OSError, TypeError):   # generated functions (dataclass __init__/__eq__ ...) have no source
+            return ""
+    for cls in (ExecutionCounters, BatchResult):
+        for name, raw in vars(cls).items():
+            fn = getattr(raw, "__func__", raw)
+            if inspect.isfunction(fn) and "percentage" in src(fn):
+                out.append((fn, f"{cls.__name__}.{name}"))
+    for name, fn in vars(MM).items():
+        if inspect.isfunction(fn) and fn.__module__ == MM.__name__ and "percentage" in src(fn):
+            out.append((fn, name))
+    return out
 
 
 @h.lemma(timeout=600, thorough_timeout=1800, funcs=FUNCS, kind="qz",
@@ -103,6 +120,7 @@ def percentage_kernel():
 
     F, T, PCT = z3.BitVecs("F T PCT", 64)
     queries = 0
+    sites_found = 0
     tmo = float(os.environ.get("VK_QZ_TIMEOUT", "600")) * 1000 / 4
     for fn, desc in _pct_sites():
         tree = P.fn_ast(fn)
@@ -123,7 +141,8 @@ def percentage_kernel():
                 if isinstance(node, ast.Compare) and any(isinstance(n, ast.Mult) for n in [b.op for b in ast.walk(node) if isinstance(b, ast.BinOp)]):
                     cmp_node = node
         if cmp_node is None:
-            raise P.Untranslatable("percentage test not found in " + desc)
+            continue   # mentions the percentage without testing it (e.g. only `is not None`)
+        sites_found += 1
 
         def intr(tr, node):
             # attribute / name leaves: failure count, total, percentage (by name)
@@ -157,12 +176,14 @@ def percentage_kernel():
                     "detail": f"{desc}: {f} failures of {t} with tolerated_failure_percentage={p}: code says exceeded={real}, exact 100*f > pct*t is {want} (float rounding)"}
         if r != "unsat":
             return {"verdict": "UNKNOWN", "queries": queries, "detail": f"solver {r} at {desc}"}
+    if sites_found == 0:
+        raise P.Untranslatable("no percentage test found anywhere in concurrency/models.py")
     # vacuity guard: a wrong reference must be refutable
     g = z3.Solver()
     g.add(z3.ULE(F, T), z3.UGE(T, 1), z3.ULE(T, 128), z3.ULE(PCT, 100), z3.UGT(F * 100, PCT * T) != z3.UGE(F * 100, PCT * T))
     if str(g.check()) != "sat":
         return {"verdict": "ERROR", "queries": queries, "detail": "vacuity guard failed"}
-    return {"verdict": "CONFIRMED", "queries": queries + 1, "detail": "unsat at all 3 sites: the percentage test equals the exact comparison"}
+    return {"verdict": "CONFIRMED", "queries": queries + 1, "detail": f"unsat at all {sites_found} sites: the percentage test equals the exact comparison"}
 
 
 # ------------------------------------------------------------------------------------------------ executor lemmas (world: harness/exec_world.py)
@@ -229,7 +250,7 @@ def _mk_exec(n, is_map, mc_fixed=None, interleave=None):
             p = sum(1 for i in range(n) if script.entries[i] > 0 and script.b[i][0] == "park")
             decided = spec_decided(s, f, n, cfg.min_successful, cfg.tolerated_failure_count)
             all_parked_or_done = (s + f + p == n) and p > 0
-            h.check(ex._completion_event.is_set() == (decided or all_parked_or_done),
+            h.check(XW.completion_event(ex).is_set() == (decided or all_parked_or_done),
                     "execute() must be released exactly when the policy is decided (or every unfinished branch is parked) - not earlier, not later")
 
         world.on_action = on_action
